@@ -14,6 +14,9 @@ from vlib.proofs import build_and_audit, registry
 PROP = "C20"
 DRIVER = "DriverC20.lean"
 TOL = 1e-8
+# binary_encoder(complex data, "hopf") used to return silently a wrong circuit (imaginary parts dropped);
+# repaired in /repo 79289df74 (NotImplementedError): the case is searched under the key binary_encoder:hopf:complex
+HOPF_COMPLEX = True
 
 PRE = """import sys, math, warnings
 import numpy as np
@@ -576,6 +579,10 @@ def search_binary(ctx):
                           f"x = np.array([1., -2., 0., 3., 0.5, -1., 2., 0.25])\nx0 = x.copy()\nE.binary_encoder(x, {par!r}); E.binary_encoder(x, {par!r})\nassert (x == x0).all()\n", "C20_search_binary")
         ok &= check_state(ctx, f"binary_encoder:{par}:density_matrix", "density_matrix=True", f"run(E.binary_encoder(np.array([1., -2., 2., 4.]), {par!r}, density_matrix=True))",
                           "np.outer([1., -2., 2., 4.], [1., -2., 2., 4.])/25", "", "C20_search_binary")
+    if HOPF_COMPLEX:
+        # complex data in Hopf coordinates: either the normalised data or the documented refusal
+        setup = ("x = np.array([1+1j, 2, -1j, 3+0.5j])\ntry:\n    s = run(E.binary_encoder(x, 'hopf'))\nexcept NotImplementedError:\n    s = x/np.linalg.norm(x)\n")
+        ok &= check_state(ctx, "binary_encoder:hopf:complex", "binary_encoder(complex data, 'hopf') neither loads the data nor raises NotImplementedError", "s", "x/np.linalg.norm(x)", setup, "C20_search_binary")
     ok &= check_state(ctx, "binary_encoder:default", "default parametrisation", "run(E.binary_encoder(np.array([1., -2., 0., 4.])))", "np.array([1., -2., 0., 4.])/np.sqrt(21)", "", "C20_search_binary")
     expect_raises(ctx, "binary_encoder:errors", "ValueError", "E.binary_encoder(np.ones(5))")
     expect_raises(ctx, "binary_encoder:errors", "ValueError", "E.binary_encoder(np.ones(6), 'hopf')")
